@@ -98,6 +98,11 @@ def gen_c10(rng, idx, tier, faults):
         env = {"joblib": jb, "rng": {"seed": _seed(rng) if (faults or li == 0) else 12345}}
         ops.append({"op": "NEW", "obj": f"e{li}", "params": pr})
         ops.append({"op": "FIT", "obj": f"e{li}", "env": env})
+    if rng.random() < 0.25:
+        # the caller reuses its X / y buffers: new values in the same array objects, then a
+        # refit of the same estimator (judged against the reference on the new values)
+        ops.append({"op": "MUTATE", "seed": _seed(rng)})
+        ops.append({"op": "FIT", "obj": "e0", "env": ops[1]["env"], "refit": True})
     return {"heap": heap, "y": ydef, "ops": ops, "predict_seed": _seed(rng)}
 
 
@@ -176,14 +181,30 @@ class RidgeWorld:
             CC = R.check_cv
             patched.append((R, "check_cv", CC))
             R.check_cv = lambda *a, **kw: rec_split(CC(*a, **kw))
+        news = {}
+        self.fitno = {}
         try:
             for op in tr["ops"]:
                 self.events += 1
                 if op["op"] == "NEW":
                     self.cur = op
+                    news[op["obj"]] = op
+                elif op["op"] == "MUTATE":
+                    # in-place overwrite of the caller's buffers (same array objects)
+                    spec = dict(tr["heap"]["X"])
+                    if "kind" in spec:
+                        spec["seed"] = op["seed"]
+                        X2 = D.make_array(spec)
+                    else:
+                        X2 = np.random.RandomState(op["seed"] & 0x7FFFFFFF).standard_normal(X.shape)
+                    rs = np.random.RandomState((op["seed"] + 1) & 0x7FFFFFFF)
+                    y2 = (X2 @ rs.standard_normal((X.shape[1], 1 if y.ndim == 1 else y.shape[1]))).reshape(y.shape) + 0.1 * rs.standard_normal(y.shape)
+                    X[...] = X2
+                    y[...] = y2
+                    self.stats["fired"]["caller:buffer_reused"] += 1
                 elif op["op"] == "FIT":
                     recorded["folds"] = None
-                    self.fit(self.cur, op, X, y, recorded)
+                    self.fit(news.get(op["obj"], self.cur), op, X, y, recorded)
             self.lanes()
         finally:
             for mod, name, orig in patched:
@@ -220,19 +241,26 @@ class RidgeWorld:
         p = dict(new["params"])
         cvspec = p.pop("cv")
         n = X.shape[0]
-        Xc, yc = X.copy(), y.copy()
         alphas = list(p["alphas"])
         kw = dict(p)
         kw["cv"] = self.make_cv(cvspec, n)
-        try:
-            est = Ridge2FoldCV(**kw)
-        except Exception as e:  # noqa: BLE001
-            self.violate("constructor_raises", f"{type(e).__name__}: {e}")
-            return
+        if not hasattr(self, "ests"):
+            self.ests = {}
+        est = self.ests.get(new["obj"])
+        if est is None or cvspec is not None and cvspec["type"] == "generator":
+            try:
+                est = Ridge2FoldCV(**kw)
+            except Exception as e:  # noqa: BLE001
+                self.violate("constructor_raises", f"{type(e).__name__}: {e}")
+                return
+            self.ests[new["obj"]] = est
+        else:
+            self.stats["probes"]["refit_after_buffer_reuse"] += 1
+        self.fitno[new["obj"]] = self.fitno.get(new["obj"], 0) + 1
         exc = None
         with self.env.op(op.get("env")) as out:
             try:
-                est.fit(Xc, yc)
+                est.fit(X, y)  # the caller's own buffers, not copies
             except Exception as e:  # noqa: BLE001
                 exc = e
         desc = f"params={_short(p)} cv={cvspec} X={self.trace['heap']['X'].get('kind', 'explicit')}{list(X.shape)} joblib={(op.get('env') or {}).get('joblib')}"
@@ -256,7 +284,8 @@ class RidgeWorld:
             self.violate("public_state_missing", f"{type(e).__name__}: {e} | {desc}")
             return
         self.log.add("FIT", new["obj"], "ok", cvv, alpha_, best, coef)
-        self.results[new["obj"]] = (cvv, alpha_, best, coef, f1, f2, desc)
+        if self.fitno[new["obj"]] == 1:
+            self.results[new["obj"]] = (cvv, alpha_, best, coef, f1, f2, desc)
         # ---- domain of the oracle: spectra well away from the documented rank cut
         ref = ref_ridge2fold(X, y, alphas, p["alpha_type"], p["regularization_method"], p["scoring"], f1, f2)
         rt = ref["rank_tol"]
@@ -407,6 +436,12 @@ def reductions(trace):
             t = copy.deepcopy(trace)
             t["ops"] = copy.deepcopy(keep)
             yield t
+    # without the buffer-reuse refit
+    if any(o["op"] == "MUTATE" for o in ops):
+        t = copy.deepcopy(trace)
+        k = next(i for i, o in enumerate(ops) if o["op"] == "MUTATE")
+        t["ops"] = t["ops"][:k]
+        yield t
     # quiet schedule / rng
     for i, o in enumerate(ops):
         if o["op"] == "FIT" and o.get("env"):
